@@ -183,3 +183,22 @@ func encodeStringShape(hl *pkgFiles) string {
 	return "/-- `EncodeString` (hotline/user.go): signature, then the statements of its body, identifiers renamed by position -/\n" +
 		"def encodeStringShape : List String := [" + strings.Join(q, ",\n  ") + "]\n\n"
 }
+
+// performHandshake: every call expression of the body in source order (nested calls after their parent),
+// printed as written; wrappers that only build an error value (fmt.Errorf, errors.New) and make are left out.
+func handshakeCalls(hl *pkgFiles) string {
+	var calls []string
+	if fd := findFunc(hl, "", "performHandshake"); fd != nil && fd.Body != nil {
+		ast.Inspect(fd.Body, func(n ast.Node) bool {
+			if ce, ok := n.(*ast.CallExpr); ok {
+				f := src(ce.Fun)
+				if f != "fmt.Errorf" && f != "errors.New" && f != "make" {
+					calls = append(calls, leanStr(strings.Join(strings.Fields(src(ce)), " ")))
+				}
+			}
+			return true
+		})
+	}
+	return "/-- calls of `performHandshake` in source order (error constructors and `make` left out) -/\n" +
+		"def handshakeCalls : List String := [" + strings.Join(calls, ", ") + "]\n\n"
+}
